@@ -329,9 +329,14 @@ impl HttpsSession {
         ssl: ServerConnection,
     ) -> Option<HttpsStateMachine> {
         if let Some(ref addresses) = expect.addresses {
-            if let (Some(public_address), Some(session_address)) =
-                (addresses.destination(), addresses.source())
-            {
+            // A LOCAL command (e.g. a health check of the upstream proxy) or an
+            // AF_UNSPEC header carries no addresses: the PROXY protocol has the
+            // receiver use the real endpoints of the connection instead.
+            let socket = expect.front_socket();
+            if let (Some(public_address), Some(session_address)) = (
+                addresses.destination().or_else(|| socket.local_addr().ok()),
+                addresses.source().or_else(|| socket.peer_addr().ok()),
+            ) {
                 self.public_address = public_address;
                 self.peer_address = Some(session_address);
 
